@@ -199,6 +199,11 @@ def validate_trace(prop, trace_module, trace_cfg, trace_file, timeout=900, heap=
         return dict(accepted=True, matched=n, total=n, out=out, states=r["states"])
     if m:
         return dict(accepted=False, matched=int(m.group(1)), total=int(m.group(2)), out=out, states=r["states"])
+    if "The error occurred when TLC was evaluating" in out and r["states"] >= 1:
+        # the next event cannot even be evaluated against the specification (e.g. it records a panic or a failure and lacks
+        # the fields every specified outcome has): no step of the specification matches it -> rejected at that event
+        total = sum(1 for _ in open(trace_file))
+        return dict(accepted=False, matched=min(r["states"] - 1, total), total=total, out=out, states=r["states"])
     raise ToolError("trace validation gave no verdict on %s:\n%s" % (trace_file, out[-3000:]))
 
 
@@ -295,7 +300,9 @@ class Check:
                                 (name, path, list(tallies[path])[0]))
         return tallies
 
-    def replay(self, cases_file, tag="", prop_driver=None, timeout=1800, vacuity=True):
+    def replay(self, cases_file, tag="", prop_driver=None, timeout=1800, vacuity=True, only_keys=None):
+        """only_keys: regex; a mismatch whose key does not match belongs to ANOTHER property's check (shared composition
+        specs) and is noted here, not reported as a violation of this property."""
         if vacuity:
             self.vacuity(cases_file)
         rep = vh_replay(prop_driver or self.prop, cases_file, tag=tag, timeout=timeout)
@@ -308,6 +315,9 @@ class Check:
             if len(self.samples) < 8:
                 self.samples.append(s)
         for m in rep["mismatches"]:
+            if only_keys and not re.search(only_keys, m["key"]):
+                self.extra.setdefault("deviations_belonging_to_other_properties", []).append(m["key"])
+                continue
             self.violations.append(dict(key=m["key"], detail=m))
         if rep["mismatches_total"] > len(rep["mismatches"]):
             self.notes.append("%d mismatches in total, first %d kept" % (rep["mismatches_total"], len(rep["mismatches"])))
